@@ -762,7 +762,14 @@ class PendingAugAssign(PendingNode[AugAssign]):
             # todo: could be optimized if slice is const
             tmp_slice_name = Name(id=ol_name(OL_AUGASSIGN_SLICE_TMP))
             target = self.node.target
-            subscript_parent = expr_transf(self.nsp, target.value)
+            # save the object to a tmp, it should be evaluated only once
+            subscript_parent = Name(id=ol_name(OL_AUGASSIGN_OBJECT_TMP))
+            return_list.append(
+                NamedExpr(
+                    target=subscript_parent,
+                    value=expr_transf(self.nsp, target.value),
+                )
+            )
 
             slice_expr = utils.convert_index(target.slice)
 
@@ -805,7 +812,14 @@ class PendingAugAssign(PendingNode[AugAssign]):
             )
         elif isinstance(self.node.target, Attribute):
             target = self.node.target
-            attr_parent = expr_transf(self.nsp, target.value)
+            # save the object to a tmp, it should be evaluated only once
+            attr_parent = Name(id=ol_name(OL_AUGASSIGN_OBJECT_TMP))
+            return_list.append(
+                NamedExpr(
+                    target=attr_parent,
+                    value=expr_transf(self.nsp, target.value),
+                )
+            )
             return_list.append(
                 NamedExpr(
                     target=tmp_target_name,
